@@ -104,6 +104,20 @@ static void do_nodes2(IWDB db) {
   kv->fsm.release_mmap(&kv->fsm);
 }
 
+// data block of the first node: "blk <szpow> <idxsz> <maxoff> <free> <sum of record lengths>" (free = bytes between index and records)
+static void do_blk(IWDB db) {
+  uint8_t *mm; if (kv->fsm.acquire_mmap(&kv->fsm, 0, &mm, 0)) { printf("blk err\n"); return; }
+  uint32_t blk; memcpy(&blk, mm + db->addr + DOFF_N0_U4, 4);
+  if (!blk) { printf("blk none\n"); kv->fsm.release_mmap(&kv->fsm); return; }
+  uint32_t kb; memcpy(&kb, mm + BLK2ADDR(blk) + SOFF_KBLK_U4, 4);
+  struct iwlctx lx = { .db = db, .nlvl = -1 };
+  struct kvblk kbs, *kbp = 0;
+  if (_kvblk_at_mm(&lx, BLK2ADDR(kb), mm, &kbs, &kbp)) printf("blk unreadable\n");
+  else printf("blk %d %d %lld %lld %lld\n", (int) kbs.szpow, (int) kbs.idxsz, (long long) kbs.maxoff,
+              (long long) ((1LL << kbs.szpow) - KVBLK_HDRSZ - kbs.idxsz - kbs.maxoff), (long long) _kvblk_compacted_offset(&kbs));
+  kv->fsm.release_mmap(&kv->fsm);
+}
+
 int main(int argc, char **argv) {
   setvbuf(stdout, 0, _IOLBF, 0);
   snprintf(basepath, sizeof basepath, "%s", argv[1]);
@@ -214,6 +228,8 @@ int main(int argc, char **argv) {
       if (dbs[atoi(w[1])]) do_dump(dbs[atoi(w[1])]); else printf("dump nodb\n");
     } else if (!strcmp(op, "nodes") && n == 2) {
       if (dbs[atoi(w[1])]) do_nodes(dbs[atoi(w[1])]); else printf("nodes nodb\n");
+    } else if (!strcmp(op, "blk") && n == 2) {
+      if (dbs[atoi(w[1])]) do_blk(dbs[atoi(w[1])]); else printf("blk nodb\n");
     } else if (!strcmp(op, "nodes2") && n == 2) {
       if (dbs[atoi(w[1])]) do_nodes2(dbs[atoi(w[1])]); else printf("nodes2 nodb\n");
     } else if (!strcmp(op, "cur") && n >= 3) {    // cur <c> <sub> ...
